@@ -76,6 +76,7 @@ import (
 
 	"github.com/emersion/go-message/textproto"
 	"github.com/emersion/go-smtp"
+	"github.com/foxcpp/maddy/framework/address"
 	"github.com/foxcpp/maddy/framework/buffer"
 	"github.com/foxcpp/maddy/framework/config"
 	modconfig "github.com/foxcpp/maddy/framework/config/module"
@@ -977,7 +978,16 @@ func (q *Queue) emitDSN(meta *QueueMetadata, header textproto.Header, failedRcpt
 
 	var dsnBodyBlob bytes.Buffer
 	dl := target.DeliveryLogger(q.Log, meta.MsgMeta)
-	dsnHeader, err := dsn.GenerateDSN(meta.MsgMeta.SMTPOpts.UTF8, dsnEnvelope, mtaInfo, rcptInfo, header, &dsnBodyBlob)
+	// The report goes to the sender: if its local-part is not ASCII (it can
+	// be the result of rewriting in a message that is not SMTPUTF8 itself)
+	// there is no ASCII form of the address to put into the envelope and the
+	// header.
+	dsnUTF8 := meta.MsgMeta.SMTPOpts.UTF8
+	if mbox, _, err := address.Split(meta.MsgMeta.OriginalFrom); err == nil && !address.IsASCII(mbox) {
+		dsnUTF8 = true
+	}
+
+	dsnHeader, err := dsn.GenerateDSN(dsnUTF8, dsnEnvelope, mtaInfo, rcptInfo, header, &dsnBodyBlob)
 	if err != nil {
 		dl.Error("failed to generate fail DSN", err)
 		return
@@ -987,7 +997,7 @@ func (q *Queue) emitDSN(meta *QueueMetadata, header textproto.Header, failedRcpt
 	dsnMeta := &module.MsgMetadata{
 		ID: dsnID,
 		SMTPOpts: smtp.MailOptions{
-			UTF8:       meta.MsgMeta.SMTPOpts.UTF8,
+			UTF8:       dsnUTF8,
 			RequireTLS: meta.MsgMeta.SMTPOpts.RequireTLS,
 		},
 	}
